@@ -5,4 +5,4 @@
 From SyncFut Require Import Model.
 Require Import ExtrOcamlBasic.
 Extraction Language OCaml.
-Extraction "syncfutmodel.ml" step step_label init run code_facts swapped_facts in_drain in_poll dropped.
+Extraction "syncfutmodel.ml" step step_label init run code_facts swapped_facts in_drain in_poll dropped is_other.
